@@ -12,7 +12,7 @@ import (
 func init() {
 	register("C03", &ruleSet{
 		run:    runC03,
-		floors: map[string]int{"O1": 4, "O2": 2, "O3": 6, "O5": 2},
+		floors: map[string]int{"O1": 4, "O2": 2, "O3": 6, "O4": 8, "O5": 2},
 		explain: "Decides structurally for both partitioned strategies: (O1) admission predicate: a request whose partition was found is refused on exactly the paths that " +
 			"established total.busy >= total.limit AND bin.busy >= bin.limit (comparator directions and operand fields checked; IsLimitExceeded is busy >= limit of the bin), " +
 			"and granted on every other such path; the predicate strategy visits partitions in registration order and decides inside the first matching iteration; no match " +
@@ -206,8 +206,10 @@ func runC03(p *Prog, l *Ledger) {
 	l.Rule("O2", "share formula: UpdateLimit stores exactly max(1, ceil(float(total) x fraction)), the fraction being immutable")
 	l.Rule("O3", "share coverage: every selectable partition gets UpdateLimit(current total) in the constructor, in SetLimit and when added dynamically; bin limits have no other writer")
 	l.Rule("O5", "the whole decision is one exclusive critical section of the strategy mutex; add/remove take the same mutex exclusively")
-	l.NotCovered = []string{"floating error of total x percent (the property defines the share with the same expression)", "behaviour of user predicates / lookup functions", "O4 exact bins is decided in C02/O5"}
+	l.Rule("O4", "exact bins (decided by the C02/O5 rules on the same tree): grant charges total and one bin, the release closure captured at grant time gives back exactly that bin and the total")
+	l.NotCovered = []string{"floating error of total x percent (the property defines the share with the same expression)", "behaviour of user predicates / lookup functions", "floating point"}
 	locks := p.Locksets()
+	importObligations(p, l, "C02", "O4", func(o *Obligation) bool { return o.Rule == "O5" })
 	strats := c03Discover(p, l)
 	if len(strats) < 2 {
 		l.Infra("expected two partitioned strategies, found %d", len(strats))
